@@ -72,7 +72,7 @@ func (c *Contract) hasMode(m string) bool {
 var clauseKeywords = map[string]bool{
 	"func": true, "props": true, "mode": true, "requires": true, "ensures": true,
 	"assigns": true, "decreases": true, "loop": true, "let": true, "global": true,
-	"lemma": true, "pure": true, "fieldinv": true, "private": true, "table": true, "immutable": true, "maintain": true,
+	"lemma": true, "pure": true, "fieldinv": true, "private": true, "table": true, "immutable": true, "maintain": true, "nilable": true,
 }
 
 var nameRe = regexp.MustCompile(`^([A-Za-z_][A-Za-z0-9_\[\]\.\-]*)(\{[A-Z0-9!, ]+\})?:\s*(.*)$`)
@@ -105,6 +105,7 @@ type ContractFile struct {
 	Globals   []*GlobalFact
 	FieldInvs []*FieldInv
 	Tables    []*GlobalFact
+	Nilables  []*GlobalFact // `nilable T.f`: container fields whose Object elements may be Go nil
 }
 
 // parseContractFile reads the //@ blocks of one file.
@@ -164,6 +165,8 @@ func parseContractFile(path, pkgPath string) (*ContractFile, error) {
 			out.Globals = append(out.Globals, &GlobalFact{PkgPath: pkgPath, Name: rest, File: base, Line: ln})
 		case "table":
 			out.Tables = append(out.Tables, &GlobalFact{PkgPath: pkgPath, Name: rest, File: base, Line: ln})
+		case "nilable":
+			out.Nilables = append(out.Nilables, &GlobalFact{PkgPath: pkgPath, Name: strings.TrimSpace(rest), File: base, Line: ln})
 		case "immutable":
 			fs := strings.Fields(rest)
 			tf := strings.SplitN(fs[0], ".", 2)
